@@ -74,6 +74,7 @@ def check(ctx):
     ctx.floor("database-writing calls in CreateRateBumpTransaction + CommitTransaction", n_writer_calls, 3)
     can_be_bumped(ctx, P, dbw)
     mark_replaced(ctx)
+    fee_check_uses_new_outputs(ctx, P)
 
 
 # ------------------------------------------------------------------------------------------------
@@ -236,3 +237,55 @@ def mark_replaced(ctx):
         ctx.ob("MarkReplaced/persist-after-mark@L%s" % st.get("l"), "ORDER", "the wallet transaction record is written only after the replaced-by marker was set on that same transaction "
                "(otherwise the marker is lost on reload and an already replaced transaction is bumpable again)", "marked" in state and same, "%s:%s" % (f.file, st.get("l")))
     ctx.floor("MarkReplaced WriteTx events", len(mf.events), 1)
+
+
+# ------------------------------------------------------------------------------------------------ explicit fee rate is checked at the replacement's size
+# The refusal "new fee rate too low / insufficient total fee" (CheckFeeRate) is evaluated for a maximum signed size.  When the caller replaces the outputs,
+# the size must be that of the transaction with the *new* outputs: the temporary transaction handed to CalculateMaximumSignedTxSize and CheckFeeRate gets the
+# same output list the recipients are built from, on every path to the check.  Otherwise a smaller replacement is accepted with an absolute fee below the
+# original's (seeded change C56w).
+def fee_check_uses_new_outputs(ctx, P):
+    f = ctx.used(P.fn(FB + "CreateRateBumpTransaction"))
+    nm = naming(f, P)
+    checks = sites(f, lambda e: is_call_to(FB + "CheckFeeRate", e) or (is_expr(e) and e[0] == "call" and e[1].endswith("CheckFeeRate")), P)
+    if not checks:
+        raise AnalysisBroken("CreateRateBumpTransaction: no call of CheckFeeRate found")
+    # the output list the recipients are built from: the range of the loop that fills `recipients`
+    fills = [sx for sx in sites(f, lambda e: is_expr(e) and e[0] == "mcall" and e[1].rsplit("::", 1)[-1] in ("emplace_back", "push_back") and
+                                 match(["local", "recipients"], e[2]), P) if sx.loops]
+    ranges = set()
+    for sx in fills:
+        for lp in sx.loops:
+            k = loop_range_key(lp, nm) if callable(loop_range_key) else None
+            if k:
+                ranges.add(k)
+    if not ranges:
+        raise AnalysisBroken("CreateRateBumpTransaction: the loop building the recipients from the output list was not recognised")
+    n = 0
+    for sx in checks:
+        args = call_args(sx.expr)
+        tmp = [a for a in args if is_expr(a) and a[0] == "local"]
+        if len(args) < 2 or not is_expr(args[1]) or args[1][0] != "local":
+            raise AnalysisBroken("CreateRateBumpTransaction: CheckFeeRate is not called with a local temporary transaction")
+        t = args[1][1]
+        vout_of_t = [".", ["local", t], "CMutableTransaction::vout"]
+
+        def is_vout_store(e):
+            return is_expr(e) and e[0] == "b" and e[1] == "=" and e[2] == vout_of_t
+        flow = MustFlow(f, P, marks=[("vout-set", is_vout_store)])
+        flow.watch = lambda e, _sx=sx: e is _sx.expr
+        flow.run()
+        must = [m for e, m, st in flow.events if e is sx.expr]
+        stores = sites(f, is_vout_store, P)
+        vals = {F.key(F.expand(s2.expr[3], nm)) for s2 in stores}
+        if not stores:
+            init = [st.get("i") for st in stmts(f.body) if st.get("k") == "decl" and st.get("n") == t]
+            itxt = F.key(F.expand(init[0], nm)) if init and is_expr(init[0]) else ""
+            if "GetTx()" not in itxt and "mapWallet" not in itxt:
+                raise AnalysisBroken("CreateRateBumpTransaction: %s is neither a copy of the original transaction nor given an output list by assignment (unknown idiom)" % t)
+        ok = bool(must) and all("vout-set" in m for m in must) and bool(vals) and all(any(r == "each(%s)" % v or ("(%s).size()" % v) in r or ("%s.size()" % v) in r for r in ranges) for v in vals)
+        ctx.ob("CreateRateBumpTransaction/fee-check-at-new-size@L%s" % sx.line, "PROVENANCE", "the temporary transaction whose maximum signed size enters CheckFeeRate carries the "
+               "output list the replacement's recipients are built from (%s.vout is assigned that list on every path to the check)" % t, ok, sx.where,
+               {"recipient_loop_ranges": sorted(ranges), "assigned_to_vout": sorted(vals), "assigned_on_every_path": bool(must) and all("vout-set" in m for m in must)})
+        n += 1
+    ctx.floor("CheckFeeRate calls in CreateRateBumpTransaction", n, 1)
